@@ -166,3 +166,34 @@ func VerifHarness_C11_NativeRace() {
 	close(start)
 	wg.Wait()
 }
+
+// VerifHarness_C11_NativeRacePair (native replay only, race detector, fresh process): the
+// first calls of entry point f race with calls of entry point g. The g goroutines keep
+// calling until the f goroutines have returned (the race runtime can drop a report whose
+// earlier access belongs to a goroutine that has already exited).
+func VerifHarness_C11_NativeRacePair() {
+	f, g := verifChoice(verifLazyN), verifChoice(verifLazyN)
+	var wgF, wgG sync.WaitGroup
+	start := make(chan struct{})
+	var done int32
+	for i := 0; i < 4; i++ {
+		wgF.Add(1)
+		go func() {
+			defer wgF.Done()
+			<-start
+			verifLazyCall(f)
+			atomic.AddInt32(&done, 1)
+		}()
+		wgG.Add(1)
+		go func() {
+			defer wgG.Done()
+			<-start
+			for k := 0; k < 200000 && atomic.LoadInt32(&done) < 4; k++ {
+				verifLazyCall(g)
+			}
+		}()
+	}
+	close(start)
+	wgF.Wait()
+	wgG.Wait()
+}
